@@ -454,9 +454,11 @@ end
 def execute (fuel : Nat) (maxOps : Nat) (s : State) (input : List UInt8) (fault : Option String) : State × Res :=
   let s0 := { s with scanner := { src := input, fault := fault } }
   let (s1, r) := scanRun fuel maxOps s0
+  -- the structured comments seen so far are kept, whether or not the call fails
+  let s2 := { s1 with dsc := s1.dsc ++ s1.scanner.dsc }
   match r with
-  | .err .exit => (s1, .err (.ps "invalidexit"))
-  | .err .stop | .ok => ({ s1 with dsc := s1.dsc ++ s1.scanner.dsc }, .ok)
-  | _ => (s1, r)
+  | .err .exit => (s2, .err (.ps "invalidexit"))
+  | .err .stop | .ok => (s2, .ok)
+  | _ => (s2, r)
 
 end PsVerif.Model
